@@ -4,7 +4,7 @@
    [hf8_def xs q] is the textbook estimate on the order statistics of [Qsort xs] (a verified
    sort: Base/GASort.v) with h = (N + 1/3) q + 1/3, q clamped to [0,1], order statistics clamped
    to the smallest and largest value. *)
-From MM Require Import Base.Num Base.GASort Model.Sample Model.Quantile Spec.Quantile Proofs.Quantile.
+From MM Require Import Base.Num Base.GASort Model.Sample Model.Quantile Spec.Quantile Proofs.Quantile Proofs.QuantileW.
 From Coq Require Import Permutation Sorted Qround.
 Local Open Scope Q_scope.
 
@@ -97,6 +97,36 @@ Theorem C10_weighted_quantile_spec : forall xs ws q, xs <> [] -> length ws = len
 Proof. exact quantile_weighted_spec. Qed.
 Print Assumptions C10_weighted_quantile_spec.
 
+(* weighted, at the level of the MULTISET of pairs: with Wle ps y = total weight of the values
+   <= y, the result v is a value of the sample with q*W < Wle v while Wle x <= q*W for every
+   smaller value x (or the largest value when no cumulative weight exceeds q*W) *)
+Theorem C10_weighted_quantile_char : forall xs ws st q, xs <> [] -> length ws = length xs ->
+  Qle_bool q 0 = false -> Qle_bool 1 q = false -> (st = true -> StronglySorted Qle xs) ->
+  nonneg (combine xs ws) ->
+  exists v ps, quantile (mkSample xs (Some ws) st) q = RVal v /\
+               Permutation ps (combine xs ws) /\ wq_char ps (totw ps * q) v.
+Proof. exact quantile_weighted_mid. Qed.
+Print Assumptions C10_weighted_quantile_char.
+
+(* hence it does not depend on the input order nor on the Sorted flag (non-negative weights) *)
+Theorem C10_weighted_quantile_presentation_invariant : forall xs ws st ys vs st' q,
+  xs <> [] -> length ws = length xs -> length vs = length ys ->
+  0 < q -> q < 1 ->
+  (st = true -> StronglySorted Qle xs) -> (st' = true -> StronglySorted Qle ys) ->
+  nonneg (combine xs ws) -> Permutation (combine xs ws) (combine ys vs) ->
+  qr_eq (quantile (mkSample xs (Some ws) st) q) (quantile (mkSample ys (Some vs) st') q).
+Proof. exact weighted_quantile_presentation_invariant. Qed.
+Print Assumptions C10_weighted_quantile_presentation_invariant.
+
+(* and it is non-decreasing in q *)
+Theorem C10_weighted_quantile_monotone_in_q : forall xs ws st q1 q2 v1 v2,
+  xs <> [] -> length ws = length xs -> 0 < q1 -> q1 <= q2 -> q2 < 1 ->
+  (st = true -> StronglySorted Qle xs) -> nonneg (combine xs ws) ->
+  quantile (mkSample xs (Some ws) st) q1 = RVal v1 ->
+  quantile (mkSample xs (Some ws) st) q2 = RVal v2 -> v1 <= v2.
+Proof. exact weighted_quantile_monotone_in_q. Qed.
+Print Assumptions C10_weighted_quantile_monotone_in_q.
+
 (* for 0 < q < 1 sorting first (once) gives the same result — the comparator relies on it *)
 Theorem C10_quantile_sort_first : forall c s q, Qle_bool q 0 = false -> Qle_bool 1 q = false ->
   (s_ws s = None \/ exists ws, s_ws s = Some ws /\ length ws = length (s_xs s)) ->
@@ -121,4 +151,11 @@ Example C10_example_weighted :
   quantile (mkSample [3; 1; 2] (Some [1; 1; 2]) false) (1 # 5) = RVal 1 /\
   quantile (mkSample [3; 1; 2] (Some [1; 1; 2]) false) (4 # 5) = RVal 3 /\
   match iqr (mkSample [3; 1; 2] (Some [1; 1; 2]) false) with RVal v => v == 1 | _ => False end.
+Proof. vm_compute. repeat split; reflexivity. Qed.
+
+(* the same multiset presented in another order, and ascending + Sorted *)
+Example C10_example_weighted_presentations :
+  quantile (mkSample [1; 2; 3] (Some [1; 2; 1]) true) (3 # 10) = RVal 2 /\
+  quantile (mkSample [2; 3; 1] (Some [2; 1; 1]) false) (3 # 10) = RVal 2 /\
+  Wle (combine [3; 1; 2] [1; 1; 2]) 2 == 3 /\ Wle (combine [3; 1; 2] [1; 1; 2]) 1 == 1.
 Proof. vm_compute. repeat split; reflexivity. Qed.
